@@ -159,10 +159,10 @@ def run (op : String) (a : Json) : Option (Except String Json) :=
   | "smp.json_docs" => some do
       let e ← dEnv a
       let name ← asStr (fld a "name")
-      let docs ← (← asArr (fld a "docs")).mapM fun d => do dictOf (← dJVal d)
-      match docs.mapM (fun d => mapDict e d name) with
-      | some css => pure <| optClasses (reduceClasses css.flatten)
-      | none => pure <| err "IndexError"
+      let docs ← (← asArr (fld a "docs")).mapM dJVal
+      match docs.mapM (fun d => mapJsonDoc e d name) with
+      | .ok css => pure <| optClasses (reduceClasses css.flatten)
+      | .error k => pure <| err k
   | "smp.fields" => some do
       let e ← dEnv a
       let docs ← (← asArr (fld a "trees")).mapM dEl
@@ -184,13 +184,13 @@ def run (op : String) (a : Json) : Option (Except String Json) :=
   | "smp.e2e_json" => some do
       let e ← dEnv a
       let name ← asStr (fld a "name")
-      let docs ← (← asArr (fld a "enc")).mapM fun d => do dictOf (← dJVal d)
-      match docs.mapM (fun d => mapDict e d name) with
-      | some css => pure <| match allAdmitted css.flatten with
+      let docs ← (← asArr (fld a "enc")).mapM dJVal
+      match docs.mapM (fun d => mapJsonDoc e d name) with
+      | .ok css => pure <| match allAdmitted css.flatten with
         | some true => ok (Json.str "accepted")
         | some false => ok (Json.str "model-rejects")
         | none => err "IndexError"
-      | none => pure <| err "IndexError"
+      | .error k => pure <| err k
   | _ => none
 
 end OpsSamples
